@@ -320,6 +320,7 @@ def _session_cov(tot: Dict) -> Dict:
         "faults_fired": {k: v for k, v in sorted(cnt.items()) if k.startswith("fault_")},
         "env_events": {k: v for k, v in sorted(cnt.items()) if k.startswith("env:")},
         "lp_calls_by_site_status": {k[3:]: v for k, v in sorted(cnt.items()) if k.startswith("lp:")},
+        "sympy_solve_by_unknowns_and_outcome": {k[len("sympy_solve:"):]: v for k, v in sorted(cnt.items()) if k.startswith("sympy_solve:")},
         "natural_solver_giveups_by_site_status": {k[len("natural_solver_giveup:"):]: v for k, v in sorted(cnt.items()) if k.startswith("natural_solver_giveup:")},
         "simulated_time_s": round(tot["sim_time_s"], 3),
         "distinct_states": {"measure": "distinct final pool-state digests (non-trivial sessions)", "count": tot["distinct_pool_states"]},
